@@ -35,7 +35,16 @@ def run_case(name, patch, checks):
     try:
         for c in checks:
             t0 = time.time()
-            p = sh(f"cd {VERIF} && VERIF_TIER=quick bin/check {c}")
+            # the evidence file must keep describing the unchanged tree: set it aside and put it back afterwards
+            ev, bak = f"{VERIF}/evidence/{c}.json", f"{VERIF}/work/evidence_{c}.json.bak"
+            if os.path.exists(ev):
+                os.makedirs(f"{VERIF}/work", exist_ok=True)
+                os.replace(ev, bak)
+            try:
+                p = sh(f"cd {VERIF} && VERIF_TIER=quick bin/check {c}")
+            finally:
+                if os.path.exists(bak):
+                    os.replace(bak, ev)
             viol = [l for l in p.stdout.splitlines() if l.startswith("VIOLATION")]
             rows.append([c, p.returncode, len(viol), round(time.time() - t0)])
             if viol:
